@@ -293,7 +293,7 @@ class Program:
     def step(self):
         rng = self.rng
         fam = rng.choice(['decl', 'decl', 'query', 'query', 'spec', 'cmp', 'adapt', 'adapt', 'reg', 'reg', 'reg',
-                          'lookup', 'lookup', 'lookup', 'odd'])
+                          'lookup', 'lookup', 'lookup', 'odd', 'comp', 'verify'])
         getattr(self, 'op_' + fam)()
 
     def op_decl(self):
@@ -646,6 +646,94 @@ class Program:
         elif k == 'getspec':
             from zope.interface.declarations import getObjectSpecification
             self.emit('getObjectSpecification(%s)' % R(o), lambda: list(getObjectSpecification(o).flattened()))
+
+    def op_comp(self):
+        """A Components registry (pure Python on top of the lookup classes): utilities use the arity-0 paths."""
+        rng = self.rng
+        if not hasattr(self, 'comps'):
+            from zope.interface.registry import Components
+            self.comps = Components('zmon')
+            self.comp_base = Components('zmon-base')
+        comps = rng.choice([self.comps, self.comps, self.comp_base])
+        cn = 'comps' if comps is self.comps else 'base'
+        prov = self.iface()
+        name = rng.choice(['', '', 'a', 'b'])
+        req = tuple(rng.choice(self.ifaces + [None] + self.classes) for _ in range(rng.choice([1, 1, 2])))
+        k = rng.choice(['ru', 'ru', 'uu', 'ra', 'ra', 'ua', 'rs', 'us', 'rh', 'uh', 'qu', 'qu', 'gu', 'gaur', 'guf', 'qa', 'qma', 'ga',
+                        'gas', 'subs', 'handle', 'list', 'bases'])
+        keys = self.__dict__.setdefault('comp_keys', [])
+        if k in ('ru', 'ra', 'rs', 'rh'):
+            keys.append((req, prov, name))
+        elif keys and rng.random() < 0.6:
+            # ask about / remove something that was registered
+            req, prov, name = rng.choice(keys)
+        obs = tuple(self.obj() for _ in req)
+        d = '%s.%s(%s,%s,%s)' % (cn, k, R(req), R(prov), R(name))
+        if k == 'ru':
+            v = self.newval()
+            self.emit(d, lambda: comps.registerUtility(v, prov, name))
+        elif k == 'uu':
+            v = rng.choice(self.vals) if self.vals and rng.random() < 0.5 else None
+            self.emit(d, lambda: comps.unregisterUtility(v, prov, name))
+        elif k == 'ra':
+            v = self.newval()
+            self.emit(d, lambda: comps.registerAdapter(v, req, prov, name))
+        elif k == 'ua':
+            self.emit(d, lambda: comps.unregisterAdapter(None, req, prov, name))
+        elif k == 'rs':
+            v = self.newval()
+            self.emit(d, lambda: comps.registerSubscriptionAdapter(v, req, prov))
+        elif k == 'us':
+            self.emit(d, lambda: comps.unregisterSubscriptionAdapter(None, req, prov))
+        elif k == 'rh':
+            v = self.newval()
+            self.emit(d, lambda: comps.registerHandler(v, req))
+        elif k == 'uh':
+            self.emit(d, lambda: comps.unregisterHandler(None, req))
+        elif k == 'qu':
+            self.emit(d, lambda: comps.queryUtility(prov, name, 'DEFAULT'))
+        elif k == 'gu':
+            self.emit(d, lambda: comps.getUtility(prov, name))
+        elif k == 'gaur':
+            self.emit(d, lambda: sorted(map(R, comps.getAllUtilitiesRegisteredFor(prov))))
+        elif k == 'guf':
+            self.emit(d, lambda: sorted(map(R, comps.getUtilitiesFor(prov))))
+        elif k == 'qa':
+            self.emit(d + R(obs[:1]), lambda: comps.queryAdapter(obs[0], prov, name, 'DEFAULT'))
+        elif k == 'qma':
+            self.emit(d + R(obs), lambda: comps.queryMultiAdapter(obs, prov, name, 'DEFAULT'))
+        elif k == 'ga':
+            self.emit(d + R(obs[:1]), lambda: comps.getAdapter(obs[0], prov, name))
+        elif k == 'gas':
+            self.emit(d + R(obs), lambda: sorted(map(R, comps.getAdapters(obs, prov))))
+        elif k == 'subs':
+            self.emit(d + R(obs), lambda: comps.subscribers(obs, prov))
+        elif k == 'handle':
+            self.emit(d + R(obs), lambda: comps.handle(*obs))
+        elif k == 'list':
+            self.emit(cn + '.registeredUtilities', lambda: sorted((R(r.provided), r.name, R(r.component)) for r in comps.registeredUtilities()))
+            self.emit(cn + '.registeredAdapters', lambda: sorted((R(r.required), R(r.provided), r.name, R(r.factory)) for r in comps.registeredAdapters()))
+            self.emit(cn + '.rebuild', lambda: comps.rebuildUtilityRegistryFromLocalCache())
+        elif k == 'bases':
+            nb = (self.comp_base,) if rng.random() < 0.6 else ()
+
+            def rb():
+                self.comps.__bases__ = nb
+            self.emit('comps.__bases__=%d' % len(nb), rb)
+
+    def op_verify(self):
+        from zope.interface.verify import verifyClass, verifyObject
+        rng = self.rng
+        I = self.iface()
+        o = self.obj()
+        c = rng.choice(self.classes)
+        r = rng.random()
+        if r < 0.5:
+            self.emit('verifyObject(%s,%s)' % (R(I), R(o)), lambda: verifyObject(I, o))
+        elif r < 0.75:
+            self.emit('verifyObject(%s,%s,tentative)' % (R(I), R(o)), lambda: verifyObject(I, o, tentative=True))
+        else:
+            self.emit('verifyClass(%s,%s)' % (R(I), R(c)), lambda: verifyClass(I, c))
 
     def finish(self):
         zi.adapter_hooks[:] = self.saved_hooks
